@@ -29,6 +29,17 @@ fn same<T: StableHash + ?Sized, U: StableHash + ?Sized>(case: &str, a: &T, b: &U
     if x != y { report_found(case, desc, &format!("{x:#x} vs {y:#x}"), "equal hashes for equal values"); }
 }
 
+struct DebugDash<K: std::hash::Hash + Eq, V>(dashmap::DashMap<K, V>);
+impl<K: std::hash::Hash + Eq + std::fmt::Debug + Ord + Clone, V: std::fmt::Debug + Clone> std::fmt::Debug for DebugDash<K, V> {
+    fn fmt(&self, f: &mut std::fmt::Formatter<'_>) -> std::fmt::Result { let mut v: Vec<(K, V)> = self.0.iter().map(|e| (e.key().clone(), e.value().clone())).collect(); v.sort_by(|a, b| a.0.cmp(&b.0)); write!(f, "DashMap{v:?}") }
+}
+impl<K: std::hash::Hash + Eq + StableHash, V: StableHash> StableHash for DebugDash<K, V> {
+    fn stable_hash<H: StableHasher + ?Sized>(&self, state: &mut H) { self.0.stable_hash(state) }
+}
+struct DebugDashSet(dashmap::DashSet<u8>);
+impl std::fmt::Debug for DebugDashSet { fn fmt(&self, f: &mut std::fmt::Formatter<'_>) -> std::fmt::Result { let mut v: Vec<u8> = self.0.iter().map(|e| *e).collect(); v.sort(); write!(f, "DashSet{v:?}") } }
+impl StableHash for DebugDashSet { fn stable_hash<H: StableHasher + ?Sized>(&self, state: &mut H) { self.0.stable_hash(state) } }
+
 fn all_distinct<T: StableHash + std::fmt::Debug>(case: &str, vals: &[T]) {
     let mut seen: HashMap<u128, usize> = HashMap::new();
     for (i, v) in vals.iter().enumerate() {
@@ -39,6 +50,20 @@ fn all_distinct<T: StableHash + std::fmt::Debug>(case: &str, vals: &[T]) {
         }
     }
 }
+
+// derived impls (the REAL derive macro): variants / fields with byte-identical payloads must still be told apart
+#[derive(StableHash, Debug, Clone, PartialEq)]
+#[stable_hash_crate(qbice_stable_hash)]
+enum DShape { Rect { w: u32, h: u32 }, Ellipse { a: u32, b: u32 }, Pt(u32, u32), Pair(u32, u32), U1, U2, One(u64), Wide { v: u64 } }
+#[derive(StableHash, Debug, Clone, PartialEq)]
+#[stable_hash_crate(qbice_stable_hash)]
+struct DNamed { a: u16, b: u16 }
+#[derive(StableHash, Debug, Clone, PartialEq)]
+#[stable_hash_crate(qbice_stable_hash)]
+struct DTuple(u16, u16);
+#[derive(StableHash, Debug, Clone, PartialEq)]
+#[stable_hash_crate(qbice_stable_hash)]
+enum DGen<T, U> { L(T), R(U), Both { l: T, r: U }, N }
 
 fn main() {
     let mut rng = Rng(seed_from_args() ^ 0xC13);
@@ -243,6 +268,18 @@ fn main() {
     all_distinct("VecDeque<u8> content", &[VecDeque::from(vec![1u8, 2]), VecDeque::from(vec![2u8, 1]), VecDeque::from(vec![1u8]), VecDeque::new(), VecDeque::from(vec![1u8, 2, 0])]);
     all_distinct("BinaryHeap<u8> content", &[BinaryHeap::from(vec![1u8, 2]), BinaryHeap::from(vec![1u8]), BinaryHeap::from(vec![2u8]), BinaryHeap::new(), BinaryHeap::from(vec![1u8, 1])].iter().map(|h| { let mut v = h.clone().into_sorted_vec(); v.sort(); (h.clone(), v) }).map(|(h, _)| h.into_sorted_vec()).collect::<Vec<_>>());
     all_distinct("Box<[u8]> / empty slices next to non-empty ones", &[(vec![].into_boxed_slice(), vec![5u8].into_boxed_slice()), (vec![5u8].into_boxed_slice(), vec![].into_boxed_slice()), (vec![].into_boxed_slice(), vec![].into_boxed_slice()), (vec![5u8, 5].into_boxed_slice(), vec![].into_boxed_slice())]);
+    all_distinct("derived enum: every variant kind, equal payloads", &[DShape::Rect { w: 3, h: 4 }, DShape::Ellipse { a: 3, b: 4 }, DShape::Pt(3, 4), DShape::Pair(3, 4),
+        DShape::Rect { w: 4, h: 3 }, DShape::U1, DShape::U2, DShape::One(3), DShape::Wide { v: 3 }, DShape::Pt(0, 0), DShape::Rect { w: 0, h: 0 }]);
+    all_distinct("derived structs: field order", &[DNamed { a: 1, b: 2 }, DNamed { a: 2, b: 1 }, DNamed { a: 0x0201, b: 0 }, DNamed { a: 0, b: 0x0102 }]);
+    all_distinct("derived tuple struct", &[DTuple(1, 2), DTuple(2, 1), DTuple(0, 0)]);
+    all_distinct("derived generic enum", &[DGen::<u8, u8>::L(1), DGen::R(1), DGen::Both { l: 1, r: 1 }, DGen::N, DGen::Both { l: 0, r: 1 }, DGen::Both { l: 1, r: 0 }]);
+    all_distinct("Vec<derived enum>", &[vec![DShape::U1, DShape::U2], vec![DShape::U2, DShape::U1], vec![DShape::U1], vec![DShape::U1, DShape::U1]]);
+    // unordered maps: the PAIRING of keys and values matters, not only the two multisets
+    all_distinct("DashMap<u8,u8> pairing", &[dashmap::DashMap::<u8, u8>::from_iter([(1, 2)]), dashmap::DashMap::from_iter([(2, 1)]), dashmap::DashMap::from_iter([(1, 1), (2, 2)]), dashmap::DashMap::from_iter([(1, 2), (2, 1)]), dashmap::DashMap::from_iter([(1, 1)]), dashmap::DashMap::new()].iter().map(|m| { let mut v: Vec<(u8, u8)> = m.iter().map(|e| (*e.key(), *e.value())).collect(); v.sort(); (v, h(m)) }).map(|(v, _)| v).collect::<Vec<_>>().iter().map(|v| v.iter().cloned().collect::<dashmap::DashMap<u8, u8>>()).map(DebugDash).collect::<Vec<_>>());
+    all_distinct("DashMap<String,String> pairing", &[DebugDash(dashmap::DashMap::from_iter([("a".to_string(), "1".to_string()), ("b".to_string(), "2".to_string())])), DebugDash(dashmap::DashMap::from_iter([("a".to_string(), "2".to_string()), ("b".to_string(), "1".to_string())]))]);
+    all_distinct("HashMap<String,String> pairing", &[HashMap::from([("a".to_string(), "1".to_string()), ("b".to_string(), "2".to_string())]), HashMap::from([("a".to_string(), "2".to_string()), ("b".to_string(), "1".to_string())])]);
+    all_distinct("BTreeMap<u8,u8> pairing", &[BTreeMap::from([(1u8, 2u8), (2, 1)]), BTreeMap::from([(1u8, 1u8), (2, 2)]), BTreeMap::from([(1u8, 2u8)]), BTreeMap::from([(2u8, 1u8)])]);
+    all_distinct("DashSet<u8> content", &[[1u8, 2].into_iter().collect::<dashmap::DashSet<u8>>(), [1u8].into_iter().collect(), [2u8].into_iter().collect(), [3u8].into_iter().collect(), dashmap::DashSet::new()].into_iter().map(DebugDashSet).collect::<Vec<_>>());
     all_distinct("bool tuples", &[(true, false), (false, true), (true, true), (false, false)]);
     all_distinct("Range vs RangeInclusive fields", &[(1u8..2).start as u16 * 256 + 2, 0x0201]);
     all_distinct("Duration", &[std::time::Duration::new(1, 0), std::time::Duration::new(0, 1), std::time::Duration::new(0, 0), std::time::Duration::new(1, 1)]);
